@@ -225,16 +225,33 @@ def run(rep, tier):
     def r15():
         # (i) list pointer / length slots at the five sites
         lens, ptrs = [], []
+        gens = {g.name: g for g in synq.all_fns(ABI) if g.self_ty == "Generator" and g.body is not None}
+        walkers = set(fns) | {"emit", "call", "lower", "lift", "deallocate"}
+
+        def with_helpers(f):
+            """f and the private Generator helpers it delegates to (transitively; the big walkers are not helpers)"""
+            out, todo, seen = [f], [f], {f.name}
+            while todo:
+                g = todo.pop()
+                for mc in synq.method_calls(g.body):
+                    m_ = mc["method"]
+                    if render(mc["recv"]) == "self" and m_ in gens and m_ not in walkers and m_ not in seen:
+                        seen.add(m_)
+                        out.append(gens[m_])
+                        todo.append(gens[m_])
+            return out
         for nm in ("write_list_to_memory", "read_list_from_memory", "deallocate_indirect"):
-            f = fns[nm]
-            for n, node in synq.constructed(f.body, ("LengthStore", "LengthLoad")):
-                off = [x for x in node.get("fields", []) if x["name"] == "offset"]
-                lens.append((nm, n, R(f, off[0]["e"]) if off else None, node))
-            for n, node in synq.constructed(f.body, ("PointerStore", "PointerLoad")):
-                off = [x for x in node.get("fields", []) if x["name"] == "offset"]
-                ptrs.append((nm, n, R(f, off[0]["e"]) if off else None, node))
-        rep.floor("R1.5", "list length-slot sites", len(lens), 5)
-        rep.floor("R1.5", "list pointer-slot sites", len(ptrs), 5)
+            nl, np_ = len(lens), len(ptrs)
+            for f in with_helpers(fns[nm]):
+                for n, node in synq.constructed(f.body, ("LengthStore", "LengthLoad")):
+                    off = [x for x in node.get("fields", []) if x["name"] == "offset"]
+                    lens.append((f.name, n, R(f, off[0]["e"]) if off else None, node))
+                for n, node in synq.constructed(f.body, ("PointerStore", "PointerLoad")):
+                    off = [x for x in node.get("fields", []) if x["name"] == "offset"]
+                    ptrs.append((f.name, n, R(f, off[0]["e"]) if off else None, node))
+            # structural minimum: each of the three walkers touches the length slot and the pointer slot somewhere
+            rep.floor("R1.5", f"list length-slot sites reachable from {nm}", len(lens) - nl, 1)
+            rep.floor("R1.5", f"list pointer-slot sites reachable from {nm}", len(ptrs) - np_, 1)
         for nm, n, off, node in lens:
             rep.ob("R1.5", f"{nm}: {n} uses offset + align(ty)", off == "($offset + self.bindgen.sizes().align($ty).into())",
                    f"offset expression is `{off}`", f"{ABI}:{synq.line(node)}")
@@ -312,10 +329,28 @@ def run(rep, tier):
                    wo == ["$offset.add_bytes(($i * 4))"] and ro == wo, f"{wo} / {ro}", fns["write_to_memory"].loc(wfor[0]))
         for w_ in ("U8", "U16"):
             for nm, tbl_arm, acc in (("write_to_memory", fa, "store_intrepr"), ("read_from_memory", fb, "load_intrepr")):
-                m = synq.find_match(tbl_arm.body, "FlagsRepr::")
+                m = synq.find_match(tbl_arm.body, "FlagsRepr::", min_arms=1)
                 a = synq.arm_for(m, "FlagsRepr::" + w_)
-                args = [R(fns[nm], c["args"]) for c in synq.method_calls(a.body, acc)]
-                rep.ob("R1.5", f"{nm}: FlagsRepr::{w_} accessed as Int::{w_}", args == [f"$offset, Int::{w_}"], f"{args}",
+                calls_ = synq.method_calls(a.body, acc)
+                args = [R(fns[nm], c["args"]) for c in calls_]
+                ok_ = args == [f"$offset, Int::{w_}"]
+                if not ok_ and len(calls_) == 1 and len(calls_[0]["args"]) == 2 and R(fns[nm], calls_[0]["args"][0]) == "$offset":
+                    # the width may come from a same-file helper applied to the matched repr: evaluate the helper's own
+                    # FlagsRepr table for this width
+                    e2 = calls_[0]["args"][1]
+                    if e2.get("k") == "call" and e2["func"].get("k") == "path" and len(e2["args"]) == 1 and \
+                            render(e2["args"][0]).lstrip("&*") in a.binds() + [render(m["scrut"])]:
+                        hs = [g for g in synq.all_fns(ABI) if g.name == synq.short(e2["func"]["path"]) and g.body is not None]
+                        if len(hs) == 1:
+                            hm = synq.find_match(hs[0].body, "FlagsRepr::", min_arms=1)
+                            ha = synq.arm_for(hm, "FlagsRepr::" + w_)
+                            hb = ha.body if ha else None
+                            while hb is not None and hb.get("k") == "block" and len(hb["stmts"]) == 1 and hb["stmts"][0].get("k") == "expr_stmt":
+                                hb = hb["stmts"][0]["e"]
+                            if ha is not None and ha.guard is None and "FlagsRepr::" + w_ in [h_ for h_ in ha.heads] and render(hb) == f"Int::{w_}":
+                                ok_ = True
+                                args = [f"$offset, {render(e2)} -> Int::{w_}"]
+                rep.ob("R1.5", f"{nm}: FlagsRepr::{w_} accessed as Int::{w_}", ok_, f"{args}",
                        fns[nm].loc(a.node))
         # (v) map value offset identical in lower, lift, deallocate; key at 0, value at that offset
         vo = {}
@@ -395,6 +430,21 @@ def run(rep, tier):
                     got = [render(a).lstrip("*") for a in cs[0]["args"]]
                     order = "ab" if got == names else "ba" if got == names[::-1] else "?"
                     return x, y, order
+        # the same pairing written as an adaptor: X.iter().zip(&Y[1..]).map(|(a, b)| cast(*?, *?))
+        for mc in synq.method_calls(f.body, "map"):
+            it = mc["recv"]
+            cl = mc["args"][0] if mc["args"] and mc["args"][0].get("k") == "closure" else None
+            if cl is None or not (it.get("k") == "mcall" and it["method"] == "zip"):
+                continue
+            prm = cl["params"][0] if len(cl["params"]) == 1 else None
+            if prm is None or prm.get("k") != "p_tuple":
+                continue
+            names = [e.get("name") for e in prm["elems"]]
+            cs = synq.fn_calls(cl["body"], "cast")
+            if len(cs) == 1 and len(names) == 2:
+                got = [render(a).lstrip("*") for a in cs[0]["args"]]
+                order = "ab" if got == names else "ba" if got == names[::-1] else "?"
+                return render(it["recv"]), render(it["args"][0]), order
         return None
 
     def let_in_loop(f, name):
